@@ -42,7 +42,7 @@ func TestC17(t *testing.T) {
 		map[string]float64{"supply-decreased": 0.3, "dao-burn-ok": 0.15, "slash-or-jail": 0.1},
 		func(rt *rapid.T, c *harness.Case) {
 			w := chain.GenWorld(rt)
-			h := w.GenHistory(rt, 6, 22)
+			h := w.GenHistory(rt, 8, 24)
 			c.Opf("%s", w.Describe())
 			// bias: a downtime scenario (highest-stake node absent for the first 7 blocks => slash + jail) and double-sign evidence
 			victim := 0
@@ -53,7 +53,7 @@ func TestC17(t *testing.T) {
 			}
 			vaddr := chain.Addr(w.Nodes[victim])
 			if rapid.Bool().Draw(rt, "downtimeScenario") {
-				for i := 0; i < 7 && i < len(h.Blocks); i++ {
+				for i := 0; i < 14 && i < len(h.Blocks); i++ {
 					h.Blocks[i].Absent = map[string]bool{hex.EncodeToString(vaddr): true}
 				}
 			}
@@ -109,6 +109,18 @@ func TestC17(t *testing.T) {
 					}
 					if was, ok := jailedBefore[a]; ok && !was && v.Jailed {
 						slashed = true
+					}
+				}
+				present := map[string]bool{}
+				for _, v := range nk.GetAllValidators(n.Ctx()) {
+					present[v.Address.String()] = true
+				}
+				for a := range stakeBefore {
+					if !present[a] {
+						// the record matured and was paid out in this block: a slash earlier in the same block is not observable
+						// from records, so only the direction of the supply change is judged for this block
+						slashed = true
+						c.Label("unstake-completed")
 					}
 				}
 				// a validator that was slashed and removed in the same block leaves no record: detect by disappearance of a jailed/unstaking one is not
